@@ -34,16 +34,33 @@ Proof.
       change (b :: t' ++ US :: US :: rest) with ((b :: t') ++ US :: US :: rest). rewrite (IH H2). reflexivity.
 Qed.
 
-(* the names the runner derives from a specification symbol are the ones it was made from *)
-Theorem parse_mangle ctx name : wf_name ctx = true -> wf_name name = true -> parse_spec (mangle ctx name) = (ctx, name).
+Lemma strip_sep_end_app name : strip_sep_end (name ++ [US; US]) = name.
 Proof.
-  intros Hc Hn. unfold parse_spec, mangle.
+  unfold strip_sep_end. rewrite app_length. cbn [length].
+  replace (length name + 2 - 2)%nat with (length name) by lia.
+  rewrite skipn_app, skipn_all, Nat.sub_diag. cbn [skipn app].
+  rewrite firstn_app, firstn_all, Nat.sub_diag. cbn [firstn]. rewrite app_nil_r.
+  vm_compute (list_eqb [US; US] SEP). reflexivity.
+Qed.
+
+(* the names the runner derives from a specification symbol are the ones it was made from: for
+   every test name (also one that contains the separator or ends in an underscore) and every
+   context name without a separator inside or an underscore at its end *)
+Theorem parse_mangle ctx name : wf_name ctx = true -> parse_spec (mangle ctx name) = (ctx, name).
+Proof.
+  intros Hc. unfold parse_spec, mangle.
   rewrite skipn_app. rewrite skipn_all2 by (cbn; lia).
   replace (length (PREFIX ++ SEP) - length PREFIX)%nat with (length SEP) by (cbn; reflexivity).
   cbn [app]. rewrite skipn_app, skipn_all, Nat.sub_diag. cbn [skipn app].
   unfold SEP. cbn [app]. rewrite (split_sep_wf ctx (name ++ [US; US]) Hc).
-  rewrite (split_sep_wf name [] Hn). reflexivity.
+  rewrite strip_sep_end_app. reflexivity.
 Qed.
+
+(* before the repair a test name containing the separator was cut at it *)
+Example parse_old_cut_names_refuted :
+  parse_spec_old (mangle [83] [112; 95; 95; 111]) = ([83], [112]) /\
+  parse_spec (mangle [83] [112; 95; 95; 111]) = ([83], [112; 95; 95; 111]).
+Proof. vm_compute. split; reflexivity. Qed.
 
 (* the guard is needed: a context ending in '_' is not recovered *)
 Example parse_needs_wf_refuted : parse_spec (mangle [97; 95] [98]) <> ([97; 95], [98]).
